@@ -103,11 +103,11 @@ def generate(ctx, sd, variant):
     dev = ['"lateChannel"'] if variant == "late" else []
     # write-concurrency and buffer size are chosen per behaviour (Init): one JVM serves several configurations
     gens = {
-        "Gx": (ctx.pick(60, 300), dict(RPs=['"r1"', '"r2"'], SubNames=['"a"'], Ws=[1, 2], Bufs=[1, 2])),
-        "Gy": (ctx.pick(24, 100), dict(RPs=['"r1"'], SubNames=['"a"', '"b"'], Ws=[1, 2], Bufs=[1], DefIds=[1, 2, 4])),
+        "Gx": (ctx.pick(60, 240), dict(RPs=['"r1"', '"r2"'], SubNames=['"a"'], Ws=[1, 2], Bufs=[1, 2])),
+        "Gy": (ctx.pick(24, 60), dict(RPs=['"r1"'], SubNames=['"a"', '"b"'], Ws=[1, 2], Bufs=[1], DefIds=[1, 2, 4])),
     }
     if not ctx.quick():
-        gens["Gz"] = (150, dict(RPs=['"r1"', '"r2"'], SubNames=['"a"', '"b"'], Ws=[1, 2], Bufs=[1, 2]))
+        gens["Gz"] = (100, dict(RPs=['"r1"', '"r2"'], SubNames=['"a"', '"b"'], Ws=[1, 2], Bufs=[1, 2]))
     jobs = []
     for name, (n, kw) in gens.items():
         c = consts(DefIds=[1, 2, 3, 4, 5], MaxBatches=7, MaxChanges=5, MaxInc=4, Dev=dev, GenLen=ctx.pick(18, 26), MetaEvery=4)
